@@ -102,6 +102,9 @@ pub struct TlInner {
     pub fail_at: Option<u64>,
     pub effect: Effect,
     pub budget_end: u64,
+    /// data words delivered to the bus in the current call / the most a terminating call may deliver
+    pub call_words: u64,
+    pub word_limit: u64,
     pub faulted: Option<Fault>,
     pub ops_after_fault: u64,
     pub delays_after_fault: u64,
@@ -142,6 +145,8 @@ impl Tl {
             fail_at: None,
             effect: Effect::NoEffect,
             budget_end: u64::MAX,
+            call_words: 0,
+            word_limit: u64::MAX,
             faulted: None,
             ops_after_fault: 0,
             delays_after_fault: 0,
@@ -181,11 +186,16 @@ impl Tl {
         t.ops_after_fault = 0;
         t.delays_after_fault = 0;
         t.budget_end = t.ops.saturating_add(budget);
+        // one SPI transaction can carry a whole buffer: bound the delivered words as well (the
+        // operation budget is already dozens of times the expected traffic)
+        t.call_words = 0;
+        t.word_limit = budget;
         t.fail_at = fail_at_rel.map(|k| t.ops + k);
     }
     pub fn end_call(&self) {
         let mut t = self.b();
         t.budget_end = u64::MAX;
+        t.word_limit = u64::MAX;
         t.fail_at = None;
     }
     pub fn take_bus(&self) -> Vec<BusEv> {
@@ -221,7 +231,15 @@ impl TlInner {
         Ok(())
     }
 
+    fn count_words(&mut self, n: u64) {
+        self.call_words += n;
+        if self.call_words > self.word_limit {
+            std::panic::panic_any(BudgetExceeded { ops: self.call_words });
+        }
+    }
+
     fn push_data(&mut self, w: u16) {
+        self.count_words(1);
         if let Some(BusEv::Data(v)) = self.bus.last_mut() {
             v.push(w);
         } else {
@@ -287,6 +305,7 @@ impl TlInner {
         if bytes.is_empty() {
             return;
         }
+        self.count_words(bytes.len() as u64);
         match self.dc {
             Some(false) => {
                 if bytes.len() > 1 {
@@ -513,7 +532,10 @@ impl<W: WordLike, K: KindM> Interface for L1<W, K> {
         }
         // the iterator is user code (may call back into instrumented things):
         // do not hold the borrow while pulling from it
-        let cap = self.tl.0.borrow().l1_word_cap;
+        let cap = {
+            let t = self.tl.0.borrow();
+            t.l1_word_cap.min(t.word_limit)
+        };
         let mut words: Vec<u16> = Vec::new();
         let mut npix = 0u64;
         for px in pixels {
